@@ -2622,43 +2622,32 @@ Lemma ex_EK : forall i, Ex i = true -> Kx i = true.
 Proof. intros i HE. apply Nat.eqb_eq in HE. subst. reflexivity. Qed.
 
 (* only a re-executes (its command text changed), b and c are restored: early cut-off *)
+Lemma ex_files_z : forall i t p, Ex i = false -> node_at sx i = Some (NTarget t) -> In p (td_ins t) ->
+  pkg_fs sx t p = pkg_fs sz t p.
+Proof.
+  intros i t p HE Hn Hp. destruct i as [|[|[|[|i]]]]; try discriminate HE.
+  - unfold node_at, sx in Hn. cbn in Hn. inversion Hn; subst t. destruct Hp.
+  - unfold node_at, sx in Hn. cbn in Hn. discriminate Hn.
+  - unfold node_at, sx in Hn. cbn in Hn. inversion Hn; subst t. destruct Hp.
+  - unfold node_at, sx in Hn. cbn in Hn. destruct i; discriminate Hn.
+Qed.
+
 Example edit_cone_nonvacuous :
   forall lb, In lb (br_exec (build hex_enc cfgA sy [3] (br_world r1) (br_cache r1))) ->
   exists j t, Kx j = true /\ In j (selection sy [3]) /\ node_at sy j = Some (NTarget t) /\ lb = td_label t.
 Proof.
-  apply (edit_cone_build hex_enc cfgA sx sy [3] w0 empty_cache Ex Kx); try reflexivity.
-  - apply empty_cache_complete.
-  - exact ex_deps_y.
-  - exact ex_node_y.
-  - exact ex_EK.
-  - apply (ex_shape sy eq_refl ex_deps_y).
-  - vm_compute; reflexivity.
-  - vm_compute; reflexivity.
-  - vm_compute; reflexivity.
-  - vm_compute; reflexivity.
-  - vm_compute; reflexivity.
+  apply (edit_cone_build hex_enc cfgA sx sy [3] w0 empty_cache Ex Kx);
+    first [ apply empty_cache_complete | exact ex_deps_y | exact ex_node_y | exact ex_EK
+          | apply (ex_shape sy eq_refl ex_deps_y) | vm_compute; reflexivity | reflexivity ].
 Qed.
 
 Example edit_cone_nonvacuous_z :
   forall lb, In lb (br_exec (build hex_enc cfgA sz [3] (br_world r1) (br_cache r1))) ->
   exists j t, Kx j = true /\ In j (selection sz [3]) /\ node_at sz j = Some (NTarget t) /\ lb = td_label t.
 Proof.
-  apply (edit_cone_build hex_enc cfgA sx sz [3] w0 empty_cache Ex Kx); try reflexivity.
-  - apply empty_cache_complete.
-  - exact ex_deps_z.
-  - exact ex_node_z.
-  - intros i t p HE Hn Hp. destruct i as [|[|[|[|i]]]]; try discriminate HE.
-    + unfold node_at, sx in Hn. cbn in Hn. inversion Hn; subst t. destruct Hp.
-    + unfold node_at, sx in Hn. cbn in Hn. discriminate Hn.
-    + unfold node_at, sx in Hn. cbn in Hn. inversion Hn; subst t. destruct Hp.
-    + unfold node_at, sx in Hn. cbn in Hn. destruct i; discriminate Hn.
-  - exact ex_EK.
-  - apply (ex_shape sz eq_refl ex_deps_z).
-  - vm_compute; reflexivity.
-  - vm_compute; reflexivity.
-  - vm_compute; reflexivity.
-  - vm_compute; reflexivity.
-  - vm_compute; reflexivity.
+  apply (edit_cone_build hex_enc cfgA sx sz [3] w0 empty_cache Ex Kx);
+    first [ apply empty_cache_complete | exact ex_deps_z | exact ex_node_z | exact ex_files_z | exact ex_EK
+          | apply (ex_shape sz eq_refl ex_deps_z) | vm_compute; reflexivity | reflexivity ].
 Qed.
 
 Example edit_exec_concrete :
@@ -2669,21 +2658,12 @@ Proof. vm_compute. split; reflexivity. Qed.
 Example early_cutoff_nonvacuous :
   rt_status (get_rt (build_state hex_enc cfgA sy [3] (br_world r1) (br_cache r1)) 1) = THit.
 Proof.
-  apply (early_cutoff_build hex_enc cfgA sx sy [3] w0 empty_cache Ex Kx 1 tb); try reflexivity.
-  - apply empty_cache_complete.
-  - exact ex_deps_y.
-  - exact ex_node_y.
-  - exact ex_EK.
-  - apply (ex_shape sy eq_refl ex_deps_y).
-  - vm_compute; reflexivity.
-  - vm_compute; reflexivity.
-  - vm_compute; reflexivity.
-  - vm_compute; reflexivity.
-  - vm_compute; reflexivity.
-  - right. vm_compute. reflexivity.
-  - intros x [<-|[]]. right. exists ta, ta2. split; [reflexivity|]. split; [reflexivity|].
-    split; [right; vm_compute; reflexivity | vm_compute; reflexivity].
-  - left; reflexivity.
+  apply (early_cutoff_build hex_enc cfgA sx sy [3] w0 empty_cache Ex Kx 1 tb);
+    first [ apply empty_cache_complete | exact ex_deps_y | exact ex_node_y | exact ex_EK
+          | apply (ex_shape sy eq_refl ex_deps_y) | vm_compute; reflexivity | reflexivity
+          | right; vm_compute; reflexivity | left; reflexivity | idtac ].
+  intros x [<-|[]]. right. exists ta, ta2. split; [reflexivity|]. split; [reflexivity|].
+  split; [right; vm_compute; reflexivity | vm_compute; reflexivity].
 Qed.
 
 End C02_examples.
